@@ -426,6 +426,7 @@ int sim_getsockname(int fd, struct sockaddr *sa, socklen_t *len) {
 static ssize_t do_send(int fd, const void *buf, size_t n, int call) {
   VFd *f = live(fd, call);
   if (!f) return -1;
+  f->n_send_calls++;
   Fault ft;
   size_t limit = n;
   if (W.take_fault(FC_SEND, fd, ft)) {
